@@ -4,6 +4,7 @@ import (
 	"encoding/json"
 	"fmt"
 	"regexp"
+	"runtime"
 	"strings"
 	"time"
 
@@ -98,8 +99,15 @@ func c08Run(ctx *core.Ctx) {
 				emit(c08Case{Kind: "tlscut", Cut: cut, Failure: f})
 			}
 		}
+		for _, reason := range []string{"quit", "disconnect", "errors", "panic"} {
+			for _, who := range []string{"Server.Close", "Conn.Close"} {
+				for rep := 0; rep < 4; rep++ {
+					emit(c08Case{Kind: "closeoverlap", Reason: reason, Failure: who, Cut: rep, Mode: modeSMTP})
+				}
+			}
+		}
 		for _, mode := range []srvMode{modeSMTP, modeLMTPRcpt} {
-			for _, reason := range []string{"quit", "errors", "longline", "timeout", "panic"} {
+			for _, reason := range []string{"quit", "errors", "errors:FOO", "errors:ABCDE", "errors:", "errors:mixed", "longline", "timeout", "panic"} {
 				for _, rt := range []bool{false, true} {
 					if reason == "timeout" && !rt {
 						continue
@@ -167,6 +175,8 @@ func c08Exec(ctx *core.Ctx, c c08Case) {
 		// informational only: GOMAXPROCS is set per child process
 	}
 	switch c.Kind {
+	case "closeoverlap":
+		c08CloseOverlap(ctx, c)
 	case "cut":
 		c08Cut(ctx, c)
 	case "tlscut":
@@ -252,6 +262,9 @@ func c08Desc(c c08Case) string {
 		return fmt.Sprintf("cut conv=%s mode=%s cut=%d failure=%s seg=%s", c.Name, c.Mode, c.Cut, c.Failure, c.Seg)
 	case "tlscut":
 		return fmt.Sprintf("tlscut cut=%d failure=%s", c.Cut, c.Failure)
+	}
+	if c.Kind == "closeoverlap" {
+		return fmt.Sprintf("closeoverlap reason=%s second=%s rep=%d", c.Reason, c.Failure, c.Cut)
 	}
 	return fmt.Sprintf("srvend reason=%s suffix=%v readTimeout=%v mode=%s", c.Reason, c.Suffix, c.ReadTimeout, c.Mode)
 }
@@ -386,8 +399,20 @@ func c08SrvEnd(ctx *core.Ctx, c c08Case) {
 	case "quit":
 		script = c.Mode.hello() + "\r\nMAIL FROM:<s@x.test>\r\nRCPT TO:<r@x.test>\r\nQUIT\r\n"
 		nBefore = 4
-	case "errors":
-		script = c.Mode.hello() + "\r\nMAIL FROM:<s@x.test>\r\nXXXX\r\nYYYY\r\nZZZZ\r\nWWWW\r\n"
+	case "errors", "errors:FOO", "errors:ABCDE", "errors:", "errors:mixed":
+		// four invalid commands of one kind: unknown verb, too short, mangled, empty line, or a mix
+		bad := []string{"XXXX", "YYYY", "ZZZZ", "WWWW"}
+		switch c.Reason {
+		case "errors:FOO":
+			bad = []string{"FOO", "BAR", "BAZ", "QUX"}
+		case "errors:ABCDE":
+			bad = []string{"ABCDE", "ABCDE", "ABCDE", "ABCDE"}
+		case "errors:":
+			bad = []string{"", "", "", ""}
+		case "errors:mixed":
+			bad = []string{"XXXX", "", "ABCDE", "FOO"}
+		}
+		script = c.Mode.hello() + "\r\nMAIL FROM:<s@x.test>\r\n" + strings.Join(bad, "\r\n") + "\r\n"
 		nBefore = 7 // greeting, hello, MAIL, 4 error replies; the closing notice follows
 	case "longline":
 		script = c.Mode.hello() + "\r\nMAIL FROM:<s@x.test>\r\n"
@@ -465,6 +490,98 @@ func c08SrvEnd(ctx *core.Ctx, c c08Case) {
 		cls := "srvend/" + c.Reason
 		if ctx.WantSample(cls) {
 			ctx.Sample(cls, map[string]any{"reason": c.Reason, "suffix": c.Suffix, "read_timeout": c.ReadTimeout, "mode": c.Mode, "replies": codes(replies)})
+		}
+	}
+}
+
+// c08CloseOverlap: the connection's own Close (after QUIT / disconnect / error threshold /
+// panic) is held inside Session.Logout while a second closer (Server.Close or Conn.Close from
+// another goroutine) runs; the session must still be logged out exactly once.
+func c08CloseOverlap(ctx *core.Ctx, c c08Case) {
+	ctx.Eval(fmt.Sprintf("closeoverlap|%s|%s|%d", c.Reason, c.Failure, c.Cut), true)
+	rig := newRig(c.Mode, nil)
+	gate := rec.NewGate()
+	defer gate.OpenAll()
+	rig.BE.H.Mail = func(sess int, from string, o *smtp.MailOptions) error {
+		if strings.HasPrefix(from, "panic") {
+			panic("scripted backend panic v#77")
+		}
+		return nil
+	}
+	rig.BE.H.Logout = func(sess int) error {
+		gate.Wait("logout")
+		return nil
+	}
+	p := rig.Dial()
+	p.SendStr(c.Mode.hello() + "\r\n")
+	if _, err := expect(p, 2); err != nil {
+		gate.OpenAll()
+		p.Close()
+		rig.Finish()
+		ctx.Inconclusive("C08 closeoverlap preamble")
+		return
+	}
+	var conn *smtp.Conn
+	rig.BE.Lock()
+	conn = rig.BE.Conns[1]
+	rig.BE.Unlock()
+	switch c.Reason {
+	case "quit":
+		p.SendStr("QUIT\r\n")
+	case "disconnect":
+		p.Close()
+	case "errors":
+		p.SendStr("XXXX\r\nXXXX\r\nXXXX\r\nXXXX\r\n")
+	case "panic":
+		p.SendStr("MAIL FROM:<panic@x.test>\r\n")
+	}
+	gate.WaitParked("logout") // the connection's own Close is now inside Logout
+	done := make(chan struct{})
+	go func() {
+		defer close(done)
+		if c.Failure == "Conn.Close" && conn != nil {
+			conn.Close()
+		} else {
+			rig.Srv.Close()
+		}
+	}()
+	// give the second closer a chance to reach the session (reach only; the verdict does not depend on it)
+	for i := 0; i < 50+c.Cut*200; i++ {
+		runtime.Gosched()
+	}
+	if c.Cut%2 == 1 {
+		time.Sleep(time.Millisecond)
+	}
+	gate.OpenAll()
+	select {
+	case <-done:
+	case <-time.After(wire.Watchdog):
+		ctx.Inconclusive("C08 closeoverlap: second closer did not return")
+		return
+	}
+	rs, _ := p.ReadAll()
+	p.Close()
+	rig.Finish()
+	// handlers are not joined after Server.Close: wait until the handler's deferred Close is over
+	deadline := time.Now().Add(wire.Watchdog)
+	for {
+		n := 0
+		for _, e := range rig.Log.Events() {
+			if e.Kind == "close" && e.A == "s2c" {
+				n++
+			}
+		}
+		if n > 0 || time.Now().After(deadline) {
+			break
+		}
+		time.Sleep(200 * time.Microsecond)
+	}
+	for i := 0; i < 200; i++ {
+		runtime.Gosched()
+	}
+	if c08Lifecycle(ctx, c, rig.Log, rs, 0, c.Reason) {
+		if ctx.WantSample("closeoverlap/" + c.Reason) {
+			ctx.Sample("closeoverlap/"+c.Reason, map[string]any{"reason": c.Reason, "second_closer": c.Failure, "logouts": len(eventsOf(rig.Log.Events(), "Logout", "b"))})
 		}
 	}
 }
